@@ -170,6 +170,15 @@ void equivalenceCase(Ctx& ctx, std::size_t part, std::size_t parts)
 		if (mapc::dumpShared(a) != mapc::dumpShared(b)) { ctx.violation("C07/equivalence/saved-game-differs-from-map", key, mapc::compare(b, r, false)); continue; }
 		std::string d = mapc::compare(b, r, false);
 		if (!d.empty()) { ctx.violation("C07/equivalence/saved-game-field", key, d); continue; }
+		if (i % 16 == 0) {
+			// the file-name overload reads the same saved game from disk
+			std::string path = ctx.scratch() + "/save.op2";
+			mc::writeFile(path, sb);
+			Map c2;
+			auto oc = mc::guarded([&] { c2 = Map::ReadSavedGame(path); });
+			if (oc.cls != 'R' || mapc::dump(c2) != mapc::dump(b)) { ctx.violation("C07/equivalence/saved-game-file-overload-differs", key, oc.what); continue; }
+			ctx.count("equivalence/file-overload");
+		}
 		ctx.count("equivalence/pairs");
 		ctx.state(); ctx.trace();
 	}
